@@ -22,6 +22,9 @@ SEEK = "std::io::Seek::seek"
 
 def run(ctx):
     F = ctx.facts
+    from .c02 import scanner_rule
+    ctx.rule("C01.7", "log scanners discard the records of an unfinished transaction when the next BeginTx arrives (else a crash inside a commit poisons the next acknowledged commit)")
+    scanner_rule(ctx, "C01.7")
     ctx.rule("C01.1", "every path from Wal::append / rewrite_as_snapshot to a success return passes through Wal::fsync")
     ctx.rule("C01.2", "every publication point in commit/compact/get_or_create_label is dominated by the Ok arm of the WAL fsync")
     ctx.rule("C01.3", "no page-file write reaches the Checkpoint/ManifestSwitch append (or rewrite_as_snapshot) without a Pager sync in between")
